@@ -92,7 +92,7 @@ UNITS = {
   'wo_thr3': dict(wrapper='w_ow_thr.cpp', mode='lcs', unroll=2, cxxflags=['-DWO=1'], devirt=['vp_recvt'], threads={'vp_thr_put': ['a', 'b', 'c']}),
   'lim_thr2': dict(wrapper='w_lim_thr.cpp', mode='lcs', unroll=2, devirt=['vp_recvt'], cut=['prioritize_task', 'spawn_in_graph_arena', 'try_reserve_impl', 'forward_task_bypassINS1_12limiter_node'], threads={'vp_thr_limput': ['a', 'b'], 'vp_thr_limdec': ['a', 'b']}),
   'lim_pull2': dict(wrapper='w_lim_pull.cpp', mode='lcs', unroll=2, devirt=['vp_recvt', 'vp_sendt'], cut=['spawn_in_graph_arena', 'forward_task_bypassINS1_12limiter_node', 'd110spin_mutex4lockEv', 'd110spin_mutex6unlockEv', 'd113spin_rw_mutex4lockEv', 'd113spin_rw_mutex6unlockEv', 'd113spin_rw_mutex11lock_sharedEv', 'd113spin_rw_mutex13unlock_sharedEv', 'EE16_M_push_back_auxIJ', 'EE16_M_pop_front_auxEv'],
-                    threads={'vp_thr_fwd': ['a', 'c', 'd', 'e'], 'vp_thr_wreg': ['b'], 'vp_thr_wdec': ['b'], 'vp_thr_wboth': ['b']}),
+                    threads={'vp_thr_fwd': ['a'], 'vp_thr_wreg': ['b'], 'vp_thr_wdec': ['b'], 'vp_thr_wboth': ['b']}),
   'queuenode': dict(wrapper='w_bufnode.cpp', mode='seq', cxxflags=['-DNODEKIND=1'], looporder=True, cut=['prioritize_task'], devirt=True, prune=True, inline_threshold=300, m1ptr=True),
   'itembuf': dict(wrapper='w_itembuf.cpp', mode='seq', cxxflags=[], selftest=True, looporder=True),
 }
